@@ -446,7 +446,9 @@ pub fn register_upvalue<T>(
     let c = resolve_closure(closure)?;
 
     if is_local {
-        let location = &vm.runtime_data.value_stack.as_slice()[index as usize];
+        // `index` is a local slot of the current (enclosing) function: it is relative to its frame
+        let offset = stack_offset(vm);
+        let location = &vm.runtime_data.value_stack.as_slice()[offset + index as usize];
         let location = (location as *const Value).cast_mut();
         unsafe {
             // look for an existing upvalue to the same location
